@@ -59,6 +59,12 @@ class Speller(object):
             nm = 'c%d' % len(self.consts)
             self.consts.append((nm, 'float', self.one(b, self.du, False)))
             return '[%s,%s]' % (self.one(a, self.du, False), nm)
+        if m == 'suffix-const':
+            # a suffixed begin next to a bare declared constant: the constant counts in the unit of the other bound
+            u = self.rng.choice(list(U))
+            nm = 'c%d' % len(self.consts)
+            self.consts.append((nm, 'float', self.one(b, u, False)))
+            return '[%s:%s]' % (self.one(a, u, True), nm)
         if m == 'const-suffix':
             u = self.rng.choice(list(U))
             nm = 'c%d' % len(self.consts)
@@ -67,7 +73,7 @@ class Speller(object):
         raise ValueError(m)
 
 
-MODES = ('default', 'both', 'same-suffix', 'end-only', 'begin-only', 'const', 'const-suffix')
+MODES = ('default', 'both', 'same-suffix', 'end-only', 'begin-only', 'const', 'const-suffix', 'suffix-const')
 
 
 class C08(Prop):
@@ -77,7 +83,7 @@ class C08(Prop):
             '(period 1 s, unit s, no suffixes) and then under other notations of the same durations: period in {1 s, '
             '500 ms, 2 s, 250000 us, 1 ms} x default unit in {s, ms, us, ns} (set with spec.unit) x spelling in '
             '{default unit, suffix on both ends (mixed units), ":" + same suffix, suffix on the end only, on the begin '
-            'only, declared-constant bound, constant with suffix}; offline, online (past formulas) and online after '
+            'only, declared-constant bound, constant with suffix, suffixed begin + bare constant}; offline, online (past formulas) and online after '
             'pastify() (bounded-future formulas) must return the same values. Bounds that are not a multiple of the '
             'period must raise RTAMTException by the first evaluation. Dense time: the same formula and signal '
             'under a consistent change of unit (stamps rescaled) must give the same values at the rescaled stamps. '
